@@ -131,8 +131,10 @@ func (e *Engine) verifyFunction(fn *ssa.Function, impl *Contract) (un *Unit, err
 				penv["result"] = outs[0]
 			}
 			for _, en := range ct.Ensures {
-				g := f.evalClause(en, penv, &r.st, &f.entry)
-				un.obligeNamed(&r.st, fmt.Sprintf("ensures#%s@ret%d", en.label(), i+1), "postcondition", en.Text+" [return at "+r.pos+"]", en.Pos, g)
+				// each postcondition is checked on its own: a failing clause must not make the following ones vacuous
+				cst := r.st.clone()
+				g := f.evalClause(en, penv, &cst, &f.entry)
+				un.obligeNamed(&cst, fmt.Sprintf("ensures#%s@ret%d", en.label(), i+1), "postcondition", en.Text+" [return at "+r.pos+"]", en.Pos, g)
 			}
 			if ct.HasMod {
 				f.frameObligations(ct, penv, r, i+1)
